@@ -492,6 +492,9 @@ def _build_obj(c, clsname, fields_model):
     return o, ghosts
 
 
+NATIVE_REPLAY_S = 10
+
+
 def native_check(c, case, model, clause_names):
     """Replay a counter-model on the real code (imported from REPO) and
     evaluate the failing clauses on the concrete pre/post state.
@@ -598,11 +601,31 @@ def native_check(c, case, model, clause_names):
                     cls_pre[cname][f] = conc(py_value(val, fk), fk)
         exc = None
         result = None
+        import signal
+
+        class _ReplayTimeout(BaseException):
+            pass
+
+        def _alarm(signum, frame):
+            raise _ReplayTimeout()
+        timed_out = False
+        can_alarm = hasattr(signal, 'SIGALRM')
         try:
+            old_handler = signal.signal(signal.SIGALRM, _alarm) if can_alarm else None
+        except ValueError:          # not in the main thread of this process
+            can_alarm = False
+        try:
+            if can_alarm:
+                signal.setitimer(signal.ITIMER_REAL, NATIVE_REPLAY_S)
             result = func(*args)
+        except _ReplayTimeout:
+            timed_out = True
         except Exception as e:
             exc = e
         finally:
+            if can_alarm:
+                signal.setitimer(signal.ITIMER_REAL, 0)
+                signal.signal(signal.SIGALRM, old_handler)
             if restore_tt is not None:
                 _m.main.current_tt = restore_tt
             cls_post = {}
@@ -623,6 +646,9 @@ def native_check(c, case, model, clause_names):
                         pass
                 else:
                     type.__setattr__(klass, f, old)
+        if timed_out:
+            # the real code did not return on the counter-model's input: not an observation of the clause
+            return 'no-replay', 'the real function did not return within %s s on the counter-model input' % NATIVE_REPLAY_S
         # concrete context
         eng = Engine(REPO, c, S.REGISTRY, case)
         params = {}
